@@ -67,6 +67,40 @@ Section Format.
     match undoc b with Some d => unpack E (mode_of e) d t | None => Err XRaw end.
 End Format.
 
+(* document functions used by the correspondence (the libraries are oracles; only what they REJECT is modelled):
+   msgpack / json / orjson / yaml accept every basic value of the grammar; TOML needs a table at the top and has no null *)
+Fixpoint has_none (v: val) : bool :=
+  match v with
+  | VNone => true
+  | VList l | VTuple l => existsb has_none l
+  | VDict kvs | VObj _ kvs => existsb (fun kv => has_none (snd kv)) kvs
+  | _ => false
+  end.
+(* equality of documents up to the order of mapping keys (yaml.dump sorts them) *)
+Fixpoint val_sim (a b: val) {struct a} : bool :=
+  match a, b with
+  | VList x, VList y | VTuple x, VTuple y =>
+      (fix go (l1 l2: list val) : bool :=
+         match l1, l2 with
+         | [], [] => true
+         | p :: r1, q :: r2 => val_sim p q && go r1 r2
+         | _, _ => false end) x y
+  | VDict x, VDict y =>
+      Nat.eqb (List.length x) (List.length y) &&
+      (fix go (l1: list (string * val)) : bool :=
+         match l1 with
+         | [] => true
+         | kv :: r1 => match kv with
+                       | (k, v) => match assoc y k with Some v' => val_sim v v' | None => false end
+                       end && go r1
+         end) x
+  | _, _ => val_eqb a b
+  end.
+
+Definition doc_id (v: val) : res val := C15Model.Ok v.
+Definition doc_toml (v: val) : res val :=
+  match v with VDict _ => if has_none v then Err XRaw else C15Model.Ok v | _ => Err XRaw end.
+
 (* ------------------------------------------------------------------ *)
 Lemma in_loop_by_alias : In "serialize_by_alias" merge_loop_keys.
 Proof. simpl. tauto. Qed.
